@@ -683,7 +683,14 @@ class SCache(SV):
         raise Unsupported("dict method %s on the unit cache" % name)
 
     def sv_truth(self, it):
-        raise Unsupported("truth of symbolic cache")
+        # a dict is falsy exactly when it is empty; emptiness is instantiated at the key the contracts'
+        # full-view postconditions speak about (an empty memo does not hold the arbitrary key)
+        if z3.is_false(z3.simplify(z3.Select(self.keys, z3.String("arbitrary_key")))) and \
+                z3.is_K(self.keys):
+            return False
+        b = it.fresh_bool("memo_nonempty")
+        it.assume(z3.Implies(z3.Not(b), z3.Not(z3.Select(self.keys, z3.String("arbitrary_key")))))
+        return b
 
 
 # ------------------------------------------------------------------------------ spec functions
